@@ -911,6 +911,11 @@ func c04R5(p *core.Program, r *core.Report, fns []*ssa.Function, rule string, al
 				r.OK(rule, key, p.Pos(site.instr.Pos()), fmt.Sprintf("len >= %d: %s", lb, why))
 				continue
 			}
+			installRegexpResolver(p)
+			if lb, why := sliceLenLB(site.instr.Block(), site.base); lb >= site.need {
+				r.OK(rule, key, p.Pos(site.instr.Pos()), fmt.Sprintf("len >= %d: %s", lb, why))
+				continue
+			}
 			if reason, ok := allowed[key]; ok {
 				r.OK(rule, key, p.Pos(site.instr.Pos()), "listed: "+reason)
 				continue
